@@ -132,6 +132,11 @@ func (h *ByzHost) harness(msg string) {
 
 func (h *ByzHost) at(idx int) bool { return h.M.Kind != "" && h.M.Msg == idx }
 
+// honest reports whether this host applies no mutation at all; only then does
+// it commit state changes (before the final message goes out, so that the next
+// request of the same client already sees them).
+func (h *ByzHost) honest() bool { return h.M.Kind == "" && h.RawMutate == nil }
+
 func encodeResp(o proto4.Object) []byte {
 	var b bytes.Buffer
 	if err := proto4.WriteResponse(&b, o); err != nil {
@@ -462,8 +467,9 @@ func (h *ByzHost) handleRead(s net.Conn) error {
 		return err
 	}
 	stream := data
-	honest := append([]byte(nil), data...)
-	applied := false
+	honest := sec.Data[off : off+ln]
+	// a lie in the header that also changes what is streamed counts as applied
+	applied := h.at(0) && !bytes.Equal(data, honest)
 	if h.at(1) {
 		applied = true
 		switch h.M.Kind {
@@ -655,6 +661,9 @@ func (h *ByzHost) handleRoots(s net.Conn) error {
 		HostSignature: rev.HostSignature,
 	}
 	prev := c.Rev
+	if h.honest() {
+		c.Rev = rev
+	}
 	err = h.emit(s, 0, resp, func(kind string) bool {
 		switch kind {
 		case "proof-flip", "proof-trunc", "proof-extend", "proof-empty":
@@ -684,9 +693,6 @@ func (h *ByzHost) handleRoots(s net.Conn) error {
 		}
 		return true
 	})
-	if err == nil && h.M.Kind == "" {
-		c.Rev = rev
-	}
 	return err
 }
 
@@ -823,12 +829,11 @@ func (h *ByzHost) handleAppend(s net.Conn) error {
 	rev.HostSignature = h.Key.SignHash(h.CS.ContractSigHash(rev))
 	third := &proto4.RPCAppendSectorsThirdResponse{HostSignature: rev.HostSignature}
 	prev := c.Rev
-	err = h.emit(s, 1, third, func(kind string) bool { return h.sigMut(&third.HostSignature, kind, rev, prev) })
-	if err == nil && h.M.Kind == "" {
+	if h.honest() {
 		c.Rev = rev
 		c.Roots = append(c.Roots, appended...)
 	}
-	return err
+	return h.emit(s, 1, third, func(kind string) bool { return h.sigMut(&third.HostSignature, kind, rev, prev) })
 }
 
 func (h *ByzHost) handleFree(s net.Conn) error {
@@ -925,12 +930,11 @@ func (h *ByzHost) handleFree(s net.Conn) error {
 	rev.HostSignature = h.Key.SignHash(h.CS.ContractSigHash(rev))
 	third := &proto4.RPCFreeSectorsThirdResponse{HostSignature: rev.HostSignature}
 	prev := c.Rev
-	err = h.emit(s, 1, third, func(kind string) bool { return h.sigMut(&third.HostSignature, kind, rev, prev) })
-	if err == nil && h.M.Kind == "" {
+	if h.honest() {
 		c.Rev = rev
 		c.Roots = newRoots
 	}
-	return err
+	return h.emit(s, 1, third, func(kind string) bool { return h.sigMut(&third.HostSignature, kind, rev, prev) })
 }
 
 func (h *ByzHost) handleFund(s net.Conn) error {
@@ -968,6 +972,10 @@ func (h *ByzHost) handleFund(s net.Conn) error {
 		resp.Balances = append(resp.Balances, bal[d.Account])
 	}
 	prev := c.Rev
+	if h.honest() {
+		c.Rev = rev
+		h.Balances = bal
+	}
 	err = h.emit(s, 0, resp, func(kind string) bool {
 		switch kind {
 		case "balances-trunc":
@@ -981,10 +989,6 @@ func (h *ByzHost) handleFund(s net.Conn) error {
 		}
 		return true
 	})
-	if err == nil && h.M.Kind == "" {
-		c.Rev = rev
-		h.Balances = bal
-	}
 	return err
 }
 
@@ -1085,14 +1089,13 @@ func (h *ByzHost) handleReplenish(s net.Conn, pools bool) error {
 	rev.HostSignature = h.Key.SignHash(h.CS.ContractSigHash(rev))
 	third := &proto4.RPCReplenishAccountsThirdResponse{HostSignature: rev.HostSignature}
 	prev := c.Rev
-	err = h.emit(s, 1, third, func(kind string) bool { return h.sigMut(&third.HostSignature, kind, rev, prev) })
-	if err == nil && h.M.Kind == "" {
+	if h.honest() {
 		c.Rev = rev
 		for _, d := range honestDeposits {
 			table[d.Account] = table[d.Account].Add(d.Amount)
 		}
 	}
-	return err
+	return h.emit(s, 1, third, func(kind string) bool { return h.sigMut(&third.HostSignature, kind, rev, prev) })
 }
 
 // ---------------------------------------------------------------- formation RPCs
